@@ -164,7 +164,7 @@ def tlc_generate(ctx, spec, cfg, timeout=900, simulate=None, limit=None):
 
 
 _RE_REJ = re.compile(r'<<"TRACE_REJECTED_AT", (\d+)>>')
-_RE_BAD = re.compile(r'<<"BAD", (\d+), "([^"]*)">>')
+_RE_BAD = re.compile(r'<<\s*"BAD",\s*(\d+),\s*"([^"]*)"\s*>>', re.S)
 
 
 class Rej(tuple):
